@@ -16,6 +16,8 @@ mod file_paths;
 mod helper;
 mod interrupt;
 mod terminal;
+#[cfg(feature = "verif-hooks")]
+mod verif_hooks;
 
 use args::Action as ArgsAction;
 use context::Context;
@@ -188,6 +190,10 @@ fn eval_exprs(exprs: &[String]) -> ExitCode {
 }
 
 fn real_main() -> ExitCode {
+	#[cfg(feature = "verif-hooks")]
+	if let Some(code) = verif_hooks::maybe_run(&std::env::args().skip(1).collect::<Vec<_>>()) {
+		return ExitCode::from(u8::try_from(code).unwrap_or(2));
+	}
 	// Assemble the action from all but the first argument.
 	let action = match ArgsAction::get() {
 		Ok(action) => action,
